@@ -131,6 +131,7 @@ type env struct {
 	cons    *consumer
 	writers []*writer
 	closed  bool
+	peerNoRead bool // odd-numbered peer links never read what the node writes
 }
 
 // newEnv makes the world; endpoints are added with addEndpoint before startNode.
